@@ -101,21 +101,14 @@ Qed.
 Definition tick (s : State) (dt : Z) : State :=
   set_time (set_height s (height s + 1)) (time s + dt).
 
-Section ReachInd.
+Section FoldInd.
   Variable cfg : Params.
   Variable P : State -> Prop.
   Hypothesis Hcfg : wf_cfg cfg.
-  Hypothesis P_init : forall h0 t0 f, 1 <= h0 -> 0 <= t0 -> wf_funding f -> P (init h0 t0 f).
-  Hypothesis P_msg : forall s o s', Inv cfg s -> P s -> wf_op s o -> (forall dt, o <> OEndBlock dt) ->
-    handle cfg s o = Ok s' -> P s'.
   Hypothesis P_expire_one : forall s c, Inv cfg s -> P s -> In (height s, c) (expq s) ->
     height s < HEIGHT_BOUND -> P (expire_one cfg s c).
   Hypothesis P_new_one : forall s c, Inv cfg s -> P s -> In (height s, c) (newq s) ->
     height s < HEIGHT_BOUND -> P (new_one cfg s c).
-  Hypothesis P_tick : forall s dt, Inv cfg s -> P s -> 0 <= dt ->
-    (forall c h, get c (expq_h s) = Some h -> height s < h) ->
-    (forall c h, get c (newq_h s) = Some h -> height s < h) ->
-    P (tick s dt).
 
   Lemma fold_expire_P l s :
     Inv cfg s -> P s -> height s < HEIGHT_BOUND -> NoDup l ->
@@ -185,10 +178,29 @@ Section ReachInd.
       apply Q2 in G. destruct G as [G Hni]. apply Hni. apply In_due. rewrite H2 in G. exact G.
   Qed.
 
+End FoldInd.
+
+Section ReachInd.
+  Variable cfg : Params.
+  Variable P : State -> Prop.
+  Hypothesis Hcfg : wf_cfg cfg.
+  Hypothesis P_init : forall h0 t0 f, 1 <= h0 -> 0 <= t0 -> wf_funding f -> P (init h0 t0 f).
+  Hypothesis P_msg : forall s o s', Inv cfg s -> P s -> wf_op s o -> (forall dt, o <> OEndBlock dt) ->
+    handle cfg s o = Ok s' -> P s'.
+  Hypothesis P_expire_one : forall s c, Inv cfg s -> P s -> In (height s, c) (expq s) ->
+    height s < HEIGHT_BOUND -> P (expire_one cfg s c).
+  Hypothesis P_new_one : forall s c, Inv cfg s -> P s -> In (height s, c) (newq s) ->
+    height s < HEIGHT_BOUND -> P (new_one cfg s c).
+  Hypothesis P_tick : forall s dt, Inv cfg s -> P s -> 0 <= dt ->
+    (forall c h, get c (expq_h s) = Some h -> height s < h) ->
+    (forall c h, get c (newq_h s) = Some h -> height s < h) ->
+    P (tick s dt).
+
   Lemma end_block_P s dt :
     Inv cfg s -> P s -> 0 <= dt -> height s < HEIGHT_BOUND -> P (end_block cfg s dt).
   Proof.
-    intros Hi Hp Hdt Hb. destruct (end_blocker_P s Hi Hp Hb) as (I2 & P2 & _ & He & Hn).
+    intros Hi Hp Hdt Hb.
+    destruct (end_blocker_P cfg P Hcfg P_expire_one P_new_one s Hi Hp Hb) as (I2 & P2 & _ & He & Hn).
     unfold end_block. now apply P_tick.
   Qed.
 
